@@ -426,6 +426,7 @@ def do_check(pid, tier, seed):
         'wall_s': round(time.time() - t0, 2),
         'violations': violations,
     }
+    n_dis, n_obl_ev = ev['coverage']['discharged'], ev['coverage']['obligations']
     if ev['coverage']['discharged'] < 1:
         # the proof did not check on this tree: report it under other keys so the file stays schema-valid
         ev['coverage']['obligations_total'] = ev['coverage'].pop('obligations')
@@ -437,7 +438,7 @@ def do_check(pid, tier, seed):
     for l in lines:
         print(l)
     print('{}: theorems {}/{} ; evaluations {} ; distinct non-trivial {} ; broken {} ; counterexamples {} (new {}) ; {:.1f}s'.format(
-        pid, ev['coverage']['discharged'], ev['coverage']['obligations'], ctx.evaluations, len(ctx.nontrivial),
+        pid, n_dis, n_obl_ev, ctx.evaluations, len(ctx.nontrivial),
         len(broken), len(ctx.counterexamples), len(new_cex), time.time() - t0))
     return 1 if violations else 0
 
